@@ -1,0 +1,14 @@
+//go:build verif
+
+package mocrelay
+
+// Exports for the verification harness in /verif (build tag verif only).
+
+// VerifRegistrySize reports how many connections and subscriptions the router's registry holds.
+func (router *RouterHandler) VerifRegistrySize() (conns, subs int) {
+	router.subs.subs.Loop(func(_ string, m *safeMap[string, *subscriber]) {
+		conns++
+		m.Loop(func(_ string, _ *subscriber) { subs++ })
+	})
+	return
+}
